@@ -295,5 +295,21 @@ CHECKS["C07"] = {
     "level_note": "Trusts synctest's clock and the harness world.",
 }
 
+CHECKS["C12"] = {
+    "level": "fault_enumeration",
+    "rule": "histories of 0-4 setup commands and 2-8 groups of 1-3 overlapping commands on different services (deploy, redeploy, "
+            "rollout deploy/set/stop, pause, stop, resume, remove; single failing commands of every error class); every command parks at "
+            "EVERY step boundary of its snapshot write (list taken / temp file created / written and closed / renamed) and at each such "
+            "instant the bytes a kill would leave are read back with an independent JSON reader (and, twice per case, a fresh router "
+            "is really restored from a copy); overlapping commands are released in a generated order, so their snapshot steps "
+            "interleave; oracle: the file is one complete snapshot of a configuration in force (any subset of the in-progress, "
+            "commuting commands applied), and after all commands of a group returned it equals the model's configuration; no "
+            "temporary file is left. Non-trivial = a crash point strictly inside a snapshot write. Distinct by plan hash.",
+    "layers": [L("TestVF_C12", 500, 6000)],
+    "technique": "crash-point enumeration driven by property-based testing (rapid): every step boundary of every generated command's snapshot write, with generated interleavings of overlapping writers",
+    "level_text": "Every step boundary of the snapshot write of every generated command is visited (enumeration inside each case); histories and interleavings are sampled.",
+    "level_note": "A killed process is modelled as 'the file as it is at a step boundary' (in-process); torn writes inside a single write(2), fsync and power loss are outside the statement.",
+}
+
 ALL_IDS = ["C%02d" % i for i in range(1, 21)]
 NOT_APPLICABLE = {pid: "check not built yet (work in progress; see DESIGN.md section 8 for the order of work)" for pid in ALL_IDS if pid not in CHECKS}
